@@ -189,6 +189,8 @@ def render(rng, kind, d) -> str:
     out = "(" + wsp(rng) + d.oid
     if d.names:
         out += sp(rng) + "NAME" + sp(rng) + r_qdescrs(rng, d.names)
+    elif rng.random() < 0.15:
+        out += sp(rng) + "NAME" + sp(rng) + "(" + wsp(rng) + ")"       # qdescrlist = [ qdescr *( SP qdescr ) ]: the list may be empty
     if d.description is not None:
         out += sp(rng) + "DESC" + sp(rng) + r_qdstring(rng, d.description)
     if d.obsolete:
